@@ -75,7 +75,12 @@ type Sample struct {
 	Trace []string `json:"trace"`
 }
 
+// exit code of a worker whose test function was aborted by the race detector
+// after it had written its summary: the orchestrator restarts it behind the aborted run
+const exitAbortedByRace = 3
+
 type WorkerSummary struct {
+	AbortedAt  int64               `json:"aborted_at"` // -1, or the run during which the race detector ended the worker
 	Check      string              `json:"check"`
 	Tier       string              `json:"tier"`
 	Seed       int64               `json:"seed"`
@@ -133,7 +138,7 @@ func TestSim(t *testing.T) {
 	start := time.Now()
 
 	sum := &WorkerSummary{Check: check, Tier: tier, Seed: seed, From: from, To: to,
-		Faults: map[string]int{}, Probes: map[string]int{}, Race: raceBuild, Violations: []*ViolationSummary{}, Infra: []string{}, Samples: []Sample{}}
+		AbortedAt: -1, Faults: map[string]int{}, Probes: map[string]int{}, Race: raceBuild, Violations: []*ViolationSummary{}, Infra: []string{}, Samples: []Sample{}}
 	classes := map[string]*ViolationSummary{}
 	var hf *bufio.Writer
 	if out != "/dev/null" {
@@ -146,11 +151,64 @@ func TestSim(t *testing.T) {
 		defer hf.Flush()
 	}
 
+	curRun := int64(-1)
+	raceBefore := int64(0)
+	finished := false
+	writeSummary := func() {
+		if !finished && inflight != nil && raceBuild {
+			// the race detector ended the test function at the end of the racy run's bubble
+			r := inflight
+			report := raceLogTail(raceBefore)
+			sum.AbortedAt = curRun
+			sum.Runs++
+			res := r.finish()
+			if report != "" && !raceInHarness(report) {
+				attrs := map[string]string{"kind": "data_race", "where": raceSite(report)}
+				res.Verdict, res.Property, res.Oracle, res.Attrs = "violation", "C29", "data_race", attrs
+				res.Detail = "the race detector reported a data race:\n" + truncateStr(report, 3000)
+				res.Known = matchKnown(known, res)
+				cl := classOf(res)
+				vs := &ViolationSummary{Class: cl, Property: res.Property, Oracle: res.Oracle, Attrs: res.Attrs,
+					Detail: res.Detail, Known: res.Known, Count: 1, FirstRun: curRun}
+				if replayDir != "" && res.Known == "" {
+					rf := ReplayFile{Property: res.Property, Check: check, Tier: tier, Seed: seed, Run: curRun,
+						Oracle: res.Oracle, Attrs: res.Attrs, Detail: res.Detail, TraceHash: res.TraceHash, Tape: res.Tape,
+						OrigLen: len(res.Tape), Trace: res.Trace}
+					path := fmt.Sprintf("%s/%s-%s-s%d-r%d.json", replayDir, res.Property, check, seed, curRun)
+					data, _ := json.MarshalIndent(rf, "", " ")
+					if err := os.WriteFile(path, data, 0644); err == nil {
+						vs.Replay = path
+					}
+				}
+				sum.Violations = append(sum.Violations, vs)
+			} else {
+				sum.Infra = append(sum.Infra, fmt.Sprintf("run %d: test function aborted; race report: %s", curRun, truncateStr(report, 1500)))
+			}
+			exitCode = exitAbortedByRace
+		}
+		sum.WallS = time.Since(start).Seconds()
+		sort.Slice(sum.Violations, func(i, j int) bool { return sum.Violations[i].FirstRun < sum.Violations[j].FirstRun })
+		if hf != nil {
+			hf.Flush()
+		}
+		data, _ := json.MarshalIndent(sum, "", " ")
+		if out != "/dev/null" {
+			if err := os.WriteFile(out+".summary.json", data, 0644); err != nil {
+				fmt.Fprintf(os.Stderr, "write summary: %v\n", err)
+			}
+		} else {
+			fmt.Println(string(data))
+		}
+	}
+	defer writeSummary()
+
 	for run := from; run < to; run++ {
 		if maxWall > 0 && time.Since(start) > maxWall {
 			sum.Infra = append(sum.Infra, fmt.Sprintf("watchdog: stopped at run %d after %v", run, time.Since(start)))
 			break
 		}
+		curRun = run
+		raceBefore = raceLogSize()
 		rs := RunSeed(seed, check, run)
 		keep := len(sum.Samples) < 3 && run-from < 3
 		res := execute(t, check, tier, NewGenTape(rs), keep)
@@ -219,9 +277,22 @@ func TestSim(t *testing.T) {
 			if b := envInt("VERIF_SHRINK_BUDGET", 0); b > 0 {
 				budget = int(b)
 			}
-			min := Shrink(orig, res.Blocks, still, budget)
+			if res.Oracle == "data_race" {
+				// the race detector reports each race once per process: it cannot be
+				// re-observed in this process, so the tape is recorded unminimised
+				// (the fresh-process replay re-observes it)
+				budget = 0
+			}
+			min := orig
+			if budget > 0 {
+				min = Shrink(orig, res.Blocks, still, budget)
+			}
 			final := execute(t, check, tier, NewReplayTape(min), true)
 			selectPrimary(known, final)
+			if res.Oracle == "data_race" {
+				// keep the original report; the re-execution only supplies the trace
+				final.Verdict, final.Property, final.Oracle, final.Attrs, final.Detail, final.Known = "violation", res.Property, res.Oracle, res.Attrs, res.Detail, res.Known
+			}
 			if final.Verdict != "violation" || classOf(final) != cl {
 				// shrinking went wrong: fall back to the original tape
 				final = execute(t, check, tier, NewReplayTape(orig), true)
@@ -245,17 +316,7 @@ func TestSim(t *testing.T) {
 			}
 		}
 	}
-	sum.WallS = time.Since(start).Seconds()
-	sort.Slice(sum.Violations, func(i, j int) bool { return sum.Violations[i].FirstRun < sum.Violations[j].FirstRun })
-	if out != "/dev/null" {
-		data, _ := json.MarshalIndent(sum, "", " ")
-		if err := os.WriteFile(out+".summary.json", data, 0644); err != nil {
-			t.Fatalf("write summary: %v", err)
-		}
-	} else {
-		data, _ := json.MarshalIndent(sum, "", " ")
-		fmt.Println(string(data))
-	}
+	finished = true
 }
 
 func doReplay(t *testing.T, path string, known []KnownFinding) {
